@@ -22,6 +22,10 @@
 //! The datasets carry market-stream reconnect notices of BOTH exchanges - before the first item, several in a row in the middle,
 //! after the last item - and every one of them is a dataset event like the items: fed exactly once, in place.
 //!
+//! `earlier_do_not_affect_later` (label `C20.bounded.earlier_backtests_do_not_affect_later_ones`, runs FIRST): backtests / batches over four
+//! DIFFERENT instrument universes on the SAME mocked exchange id, paced data, one after the other in every order and side by side, all in
+//! this one process: each one's orders / fills / final positions / summary are what its own dataset + configuration + k determine.
+//!
 //! With the unpaced in-memory data the engine-side fills are a race by construction of the unchanged tree (see `known()`):
 //! there the always-on clauses are the event clauses, the decisions (orders issued), "fills seen are a PREFIX of the fills of
 //! (dataset, k)" and "summary = function of the own engine's history"; the strict comparison runs only with VX_C20_KNOWN=1.
@@ -146,6 +150,10 @@ struct Inner {
     balances: usize,
     snapshots: usize,
     stalled: bool,
+    /// the reason the exchange gave for the first order it refused
+    first_reject: Option<String>,
+    /// signed position per instrument (index order) as the engine state showed it to the strategy at its most recent consultation
+    positions: Vec<Decimal>,
 }
 #[derive(Debug, Default)]
 struct Ctx { inner: Mutex<Inner>, notify: Notify }
@@ -189,6 +197,7 @@ impl Processor<&AccountEvent> for Recorder {
             AccountEventKind::OrderSnapshot(o) => {
                 let ok = !matches!(o.0.state, OrderState::Inactive(InactiveOrderState::OpenFailed(_)));
                 if ok { g.resp_ok += 1 } else { g.resp_err += 1 }
+                if let (OrderState::Inactive(InactiveOrderState::OpenFailed(e)), None) = (&o.0.state, &g.first_reject) { g.first_reject = Some(format!("{e:?}")); }
                 g.log.push(Rec::Response { cid: o.0.key.cid.0.to_string(), ok });
             }
             AccountEventKind::Trade(tr) => { g.trades += 1; g.log.push(Rec::Trade { inst: tr.instrument.index(), buy: tr.side == Side::Buy, px: tr.price, qty: tr.quantity, fee: tr.fees.fees }); }
@@ -203,14 +212,19 @@ impl Processor<&AccountEvent> for Recorder {
 #[derive(Debug, Default)]
 struct StratSt { examined: usize, per_inst: Vec<usize> }
 #[derive(Debug, Clone)]
-struct EveryK { id: StrategyId, tag: String, k: usize, st: Arc<Mutex<StratSt>> }
-impl EveryK { fn new(tag: &str, k: usize) -> Self { EveryK { id: StrategyId::new("every-k"), tag: tag.to_string(), k, st: Arc::new(Mutex::new(StratSt::default())) } } }
+struct EveryK { id: StrategyId, tag: String, k: usize, tradable: usize, st: Arc<Mutex<StratSt>> }
+impl EveryK {
+    fn new(tag: &str, k: usize) -> Self { EveryK { id: StrategyId::new("every-k"), tag: tag.to_string(), k, tradable: TRADABLE, st: Arc::new(Mutex::new(StratSt::default())) } }
+    /// trade the instruments 0..n of the engine's universe
+    fn trading(mut self, n: usize) -> Self { self.tradable = n; self }
+}
 
 fn qty() -> Decimal { Decimal::new(5, 1) }
 const TRADABLE: usize = 2; // instruments 0 and 1 (the exchange with a mock execution link)
 
 /// the decision rule, shared by the strategy and the reference: does the j-th market item (0-based, in processing order) trigger an order?
-fn triggers(k: usize, j: usize, inst: usize) -> bool { (j + 1) % k == 0 && inst < TRADABLE }
+/// (for a strategy that trades the instruments 0..tradable of its universe; TRADABLE in the main fixture)
+fn triggers_n(k: usize, j: usize, inst: usize, tradable: usize) -> bool { (j + 1) % k == 0 && inst < tradable }
 
 impl AlgoStrategy for EveryK {
     type State = State;
@@ -224,7 +238,7 @@ impl AlgoStrategy for EveryK {
             let j = st.examined;
             let (idx, inst, px) = g.markets[j];
             st.examined += 1;
-            if !triggers(self.k, j, inst) { continue; }
+            if !triggers_n(self.k, j, inst, self.tradable) { continue; }
             if st.per_inst.len() <= inst { st.per_inst.resize(inst + 1, 0); }
             let side = if st.per_inst[inst] % 2 == 0 { Side::Buy } else { Side::Sell };
             st.per_inst[inst] += 1;
@@ -235,6 +249,7 @@ impl AlgoStrategy for EveryK {
             g.log.push(Rec::Order(cid));
         }
         g.algo_seen = g.markets.len() + g.disconnects;
+        g.positions = state.instruments.instruments(&InstrumentFilter::None).map(|s| s.position.current.as_ref().map(|p| if p.side == Side::Buy { p.quantity_abs } else { -p.quantity_abs }).unwrap_or_default()).collect();
         drop(g);
         ctx.notify.notify_one();
         (Vec::<OrderRequestCancel<ExchangeIndex, InstrumentIndex>>::new(), opens)
@@ -397,7 +412,8 @@ impl BacktestMarketData for RecordedData {
 }
 
 // ------------------------------------------------------------------------------------------------- fixtures
-struct Fixture { instruments: IndexedInstruments, executions: Vec<ExecutionConfig>, asset_names: Vec<String> }
+struct Fixture { instruments: IndexedInstruments, executions: Vec<ExecutionConfig>, asset_names: Vec<String>, /// the strategies trade the instruments 0..tradable
+    tradable: usize }
 const INIT_QUOTE: i64 = 1_000_000;
 const INIT_BASE: i64 = 10_000;
 fn fee_rate() -> Decimal { Decimal::new(1, 3) }
@@ -415,7 +431,7 @@ fn fixture() -> Fixture {
         fees_percent: fee_rate(),
     })];
     let asset_names = instruments.assets().iter().map(|a| format!("{}:{}", a.value.exchange.as_str(), a.value.asset.name_internal)).collect();
-    Fixture { instruments, executions, asset_names }
+    Fixture { instruments, executions, asset_names, tradable: TRADABLE }
 }
 
 #[derive(Debug, Clone, Copy, PartialEq)]
@@ -452,13 +468,15 @@ fn dataset(n: usize, variant: usize) -> (Vec<Ev>, Vec<Exp>) {
 struct Fill { inst: usize, buy: bool, px: Decimal, qty: Decimal, fee: Decimal }
 
 /// reference: orders (cid) and fills of (dataset, k) when everything ordered is filled (balances are ample)
-fn reference(evs: &[Ev], tag: &str, k: usize) -> (Vec<String>, Vec<Fill>) {
-    let (mut cids, mut fills, mut per_inst, mut j) = (vec![], vec![], [0usize; TRADABLE], 0usize);
+fn reference(evs: &[Ev], tag: &str, k: usize) -> (Vec<String>, Vec<Fill>) { reference_n(evs, tag, k, TRADABLE) }
+/// the same for a strategy that trades the instruments 0..tradable
+fn reference_n(evs: &[Ev], tag: &str, k: usize, tradable: usize) -> (Vec<String>, Vec<Fill>) {
+    let (mut cids, mut fills, mut per_inst, mut j) = (vec![], vec![], vec![0usize; tradable], 0usize);
     for e in evs {
         let MarketStreamEvent::Item(m) = e else { continue; };
         let DataKind::Trade(tr) = &m.kind else { continue; };
         let inst = m.instrument.index();
-        if triggers(k, j, inst) {
+        if triggers_n(k, j, inst, tradable) {
             let buy = per_inst[inst] % 2 == 0;
             per_inst[inst] += 1;
             let px = Decimal::from(tr.price as u32);
@@ -552,7 +570,7 @@ fn run_batch(rt: &tokio::runtime::Runtime, on_worker: bool, fx: &Fixture, evs: &
     let reg = Arc::new(Registry::default());
     let template = Recorder { reg: reg.clone(), ctx: Arc::new(Ctx::default()) };
     let engine_state: State = EngineState::builder(&fx.instruments, template, DefaultInstrumentMarketData::default).time_engine_start(t(0)).trading_state(TradingState::Enabled).build();
-    let dynamic: Vec<BacktestArgsDynamic<EveryK, Risk>> = jobs.iter().map(|(tag, k)| BacktestArgsDynamic { id: SmolStr::new(tag), risk_free_return: Decimal::new(5, 2), strategy: EveryK::new(tag, *k), risk: Risk::default() }).collect();
+    let dynamic: Vec<BacktestArgsDynamic<EveryK, Risk>> = jobs.iter().map(|(tag, k)| BacktestArgsDynamic { id: SmolStr::new(tag), risk_free_return: Decimal::new(5, 2), strategy: EveryK::new(tag, *k).trading(fx.tradable), risk: Risk::default() }).collect();
     macro_rules! go { ($md:expr) => {{
         let args = Arc::new(BacktestArgsConstant { instruments: fx.instruments.clone(), executions: fx.executions.clone(), market_data: $md, summary_interval: Daily, engine_state });
         let fut = async move {
@@ -841,6 +859,169 @@ fn corrupt_and_recorded(st: &mut St, fx: &Fixture, mt: &tokio::runtime::Runtime,
     }
 }
 
+// ------------------------------------------------------------------------------------------------- earlier backtests of the same process
+const L_EARLIER: &str = "C20.bounded.earlier_backtests_do_not_affect_later_ones";
+
+/// instrument universes (base, quote), ALL on the same mocked exchange id (BinanceSpot); none of U3 / U4 contains the other, U1 and U2 are
+/// disjoint, U1 and U2 are contained in U3
+const UNIVERSES: [(&str, &[(&str, &str)]); 4] = [
+    ("U1", &[("btc", "usdt")]),
+    ("U2", &[("eth", "usdt")]),
+    ("U3", &[("sol", "usdt"), ("btc", "usdt"), ("eth", "usdt")]),
+    ("U4", &[("xrp", "usdt"), ("eth", "usdt")]),
+];
+fn universe_name(u: usize) -> String { format!("{} {{{}}}", UNIVERSES[u].0, UNIVERSES[u].1.iter().map(|(b, q)| format!("{}{}", b.to_uppercase(), q.to_uppercase())).collect::<Vec<_>>().join(",")) }
+
+/// configuration of universe `u`: its spot instruments on BinanceSpot, ONE mock execution link for BinanceSpot whose account holds ample
+/// balances of exactly the assets of the universe; the strategies trade every instrument of the universe
+fn universe_fixture(u: usize) -> Fixture {
+    let pairs = UNIVERSES[u].1;
+    let instruments = IndexedInstruments::new(pairs.iter().map(|(b, q)| Instrument::spot(B, format!("{}-{b}_{q}", B.as_str()), format!("{}{}", b.to_uppercase(), q.to_uppercase()), Underlying::new(Asset::from(*b), Asset::from(*q)), None)).collect::<Vec<_>>());
+    let mut balances: Vec<AssetBalance<AssetNameExchange>> = vec![];
+    for (a, v) in pairs.iter().flat_map(|(b, q)| [(*q, INIT_QUOTE), (*b, INIT_BASE)]) {
+        if balances.iter().all(|x| x.asset != AssetNameExchange::from(a)) { balances.push(AssetBalance { asset: AssetNameExchange::from(a), balance: Balance::new(Decimal::from(v), Decimal::from(v)), time_exchange: t(-3600) }); }
+    }
+    let executions = vec![ExecutionConfig::Mock(MockExecutionConfig { mocked_exchange: B, initial_state: UnindexedAccountSnapshot { exchange: B, balances, instruments: vec![] }, latency_ms: 0, fees_percent: fee_rate() })];
+    let asset_names = instruments.assets().iter().map(|a| format!("{}:{}", a.value.exchange.as_str(), a.value.asset.name_internal)).collect();
+    Fixture { tradable: instruments.instruments().len(), instruments, executions, asset_names }
+}
+
+/// n trades (idx 0..n) over the `n_inst` instruments of a universe (all BinanceSpot), with BinanceSpot stream reconnect notices
+fn universe_dataset(n: usize, variant: usize, n_inst: usize) -> (Vec<Ev>, Vec<Exp>) {
+    let (mut evs, mut exp) = (vec![], vec![]);
+    let notice = |evs: &mut Vec<Ev>, exp: &mut Vec<Exp>| { evs.push(MarketStreamEvent::Reconnecting(B)); exp.push(Exp::D(B)); };
+    if variant % 2 == 1 { notice(&mut evs, &mut exp); }
+    for i in 0..n {
+        if i == n / 2 && variant % 3 != 2 { notice(&mut evs, &mut exp); }
+        let inst = [0usize, 1, 0, 2, 1, 0, 0, 2, 1][(i + variant) % 9] % n_inst;
+        let px = 100 + ((i * 7 + variant * 3) % 13) as u32;
+        evs.push(MarketStreamEvent::Item(MarketEvent { time_exchange: t(i as i64), time_received: t(i as i64), exchange: B, instrument: InstrumentIndex(inst), kind: DataKind::Trade(PublicTrade { id: i.to_string(), price: px as f64, amount: 1.0, side: Side::Buy }) }));
+        exp.push(Exp::M(i));
+    }
+    if variant % 3 == 1 { notice(&mut evs, &mut exp); }
+    (evs, exp)
+}
+
+struct Uni { fx: Fixture, n: usize, variant: usize, evs: Arc<Vec<Ev>>, exp: Vec<Exp> }
+
+/// what (universe, k) gave the first time it was run in this process: (realised PnL, end balances, where that was)
+type FirstSeen = HashMap<(usize, usize), (Vec<(String, Decimal)>, Vec<(String, Option<Decimal>)>, String)>;
+
+/// the oracle of the scenario: the orders, fills, final positions, realised PnL and end balances of every backtest of the batch are the ones
+/// its OWN dataset + configuration + strategy determine (decision rule over the dataset; every order is for an instrument of the own
+/// universe and the balances are ample, so every order is filled at its price) - whatever ran earlier in the process
+fn check_isolated(st: &mut St, first: &mut FirstSeen, u: usize, un: &Uni, b: &Batch, here: &str, input: &dyn Fn() -> String) {
+    let fx = &un.fx;
+    if let Some(e) = &b.error { st.fail(L_EARLIER, input, e.clone(), format!("{} summaries", b.obs.len())); return; }
+    for o in &b.obs {
+        let who = format!("backtest {} (k={}) over universe {}", o.tag, o.k, universe_name(u));
+        let (ref_cids, ref_fills) = reference_n(&un.evs, &o.tag, o.k, fx.tradable);
+        let show = |v: &[Fill]| v.iter().map(|f| format!("{}{}@{}", if f.buy { "+" } else { "-" }, fx.instruments.instruments()[f.inst].value.name_exchange, f.px)).collect::<Vec<_>>();
+        let Some(inner) = &o.inner else { if !un.exp.is_empty() { st.fail(L_EARLIER, input, format!("{who}: no engine ever consulted its strategy"), format!("its engine processes {}", seq_short(&un.exp))); } continue; };
+        if let Some(c) = &inner.owner_conflict { st.fail(L_EARLIER, input, format!("one engine state was driven by the strategies of {c}"), "one engine per backtest".into()); }
+        // a stall of the paced feed (4 s per step) under heavy machine load is INCONCLUSIVE, as everywhere in this stand-in
+        if inner.stalled { if std::env::var("VX_C20_STALL_IS_FAILURE").is_ok() { st.fail(L_EARLIER, input, format!("{who}: paced market data gave up waiting (4 s) for its engine"), "every answer reaches the engine".into()); } else { eprintln!("inconclusive: paced market data gave up waiting for {who}"); } continue; }
+        let seen = seen_of(inner);
+        if seen != un.exp { st.fail(L_EARLIER, input, format!("{who}: its engine processed {}", seq_short(&seen)), format!("{} - every event of its own dataset once, in order", seq_short(&un.exp))); continue; }
+        if o.orders() != ref_cids { st.fail(L_EARLIER, input, format!("{who}: orders issued {:?}", o.orders()), format!("the orders its strategy decides over its dataset: {ref_cids:?}")); }
+        let fills = o.fills();
+        if fills != ref_fills {
+            st.fail(L_EARLIER, input, format!("{who}: {} orders sent, {} accepted and {} REFUSED by its mock exchange{}; its engine saw {} fills {:?}; final positions {:?}; summary {:?}", inner.orders, inner.resp_ok, inner.resp_err, inner.first_reject.as_ref().map(|r| format!(" (first refusal: {r})")).unwrap_or_default(), fills.len(), show(&fills), position_of(&fills), o.sum.as_ref().map(|s| (&s.pnl, &s.bal))),
+                format!("every order is for an instrument of the backtest's own universe with ample balance, so every one is filled - exactly, in order, the {} fills {:?}; final positions {:?} - whatever ran earlier in the process", ref_fills.len(), show(&ref_fills), position_of(&ref_fills)));
+        }
+        // final positions as the engine state showed them to the strategy after the last event
+        let want_pos: Vec<Decimal> = { let p = position_of(&ref_fills); (0..fx.instruments.instruments().len()).map(|i| p.get(&i).copied().unwrap_or_default()).collect() };
+        if inner.positions != want_pos { st.fail(L_EARLIER, input, format!("{who}: final positions of its engine {:?} (instrument index order)", inner.positions), format!("{want_pos:?} = the net of the fills of (dataset, k)")); }
+        // summary: of this backtest, from the history of its own engine, = what (dataset, configuration, k) determine
+        let Some(sum) = &o.sum else { st.fail(L_EARLIER, input, format!("{who}: no summary"), "a summary".into()); continue; };
+        if sum.id != o.tag { st.fail(L_EARLIER, input, format!("summary in the place of {} carries id {}", o.tag, sum.id), "its own id".into()); }
+        let model = pnl_of(&ref_fills);
+        let want_pnl: Vec<(String, Decimal)> = fx.instruments.instruments().iter().map(|i| (i.value.name_internal.to_string(), model.get(&i.key.index()).copied().unwrap_or_default())).collect();
+        if sum.pnl != want_pnl { st.fail(L_EARLIER, input, format!("{who}: summary realised PnL {:?}", sum.pnl), format!("the realised PnL of the fills of (dataset, k): {want_pnl:?}")); }
+        let want_bal: Vec<(String, Option<Decimal>)> = fx.asset_names.iter().cloned().zip(o.balances(fx.asset_names.len())).collect();
+        if sum.bal != want_bal { st.fail(L_EARLIER, input, format!("{who}: summary end balances {:?}", sum.bal), format!("the last balances its own engine was told: {want_bal:?}")); }
+        // the same (universe, dataset, configuration, k) gives the same result wherever it stands in the history of the process
+        match first.get(&(u, o.k)) {
+            Some((pnl, bal, wher)) if *pnl != sum.pnl || *bal != sum.bal => { let (pnl, bal, wher) = (pnl.clone(), bal.clone(), wher.clone()); st.fail(L_EARLIER, input, format!("{who}: realised PnL {:?}, end balances {:?}", sum.pnl, sum.bal), format!("realised PnL {pnl:?}, end balances {bal:?} as the same universe / dataset / configuration / k gave {wher}")) }
+            Some(_) => {}
+            None => { first.insert((u, o.k), (sum.pnl.clone(), sum.bal.clone(), here.to_string())); }
+        }
+    }
+    for s in &b.stray { if !s.markets.is_empty() || s.owner.is_some() { st.fail(L_EARLIER, input, format!("an engine state owned by {:?} processed {} market items", s.owner, s.markets.len()), "one engine per backtest".into()); } }
+}
+
+fn permutations(items: &[usize]) -> Vec<Vec<usize>> {
+    if items.len() <= 1 { return vec![items.to_vec()]; }
+    let mut out = vec![];
+    for i in 0..items.len() { let mut rest = items.to_vec(); let x = rest.remove(i); for mut p in permutations(&rest) { p.insert(0, x); out.push(p); } }
+    out
+}
+
+/// Backtests / batches over DIFFERENT instrument universes on the SAME mocked exchange id, one after the other in every order and side
+/// by side, all inside this one process: what ran earlier (or runs next to it) must not show in any of them.
+/// Runs FIRST in `run`, so the first sequence starts in a process in which no backtest has run yet.
+fn earlier_do_not_affect_later(st: &mut St, mt: &tokio::runtime::Runtime, ct: &tokio::runtime::Runtime, seed: u64, thorough: bool) {
+    let started = Instant::now();
+    let budget = Duration::from_secs(if thorough { 40 } else { 9 });
+    let sizes: [usize; 4] = if thorough { [40, 33, 60, 48] } else { [12, 9, 15, 12] };
+    let unis: Vec<Uni> = (0..UNIVERSES.len()).map(|u| { let fx = universe_fixture(u); let variant = u + 1 + seed as usize % 6; let (evs, exp) = universe_dataset(sizes[u], variant, fx.tradable); Uni { fx, n: sizes[u], variant, evs: Arc::new(evs), exp } }).collect();
+    let rts: [(&str, &tokio::runtime::Runtime, bool); 3] = [("multi-thread (4 workers)", mt, true), ("current-thread", ct, false), ("multi-thread, backtests polled on the blocking thread", mt, false)];
+    // sequences: the universes U1 U2 U3 in every order, every ordered pair of the four, and orders of all four (all 24 when thorough)
+    let mut seqs: Vec<Vec<usize>> = permutations(&[0, 1, 2]);
+    for a in 0..4 { for b in 0..4 { if a != b { seqs.push(vec![a, b]); } } }
+    let four = permutations(&[0, 1, 2, 3]);
+    if thorough { seqs.extend(four); } else { seqs.extend([0usize, 9, 14, 23, 7, 16].iter().map(|i| four[*i].clone())); }
+    // which sequence stands first in the process differs from seed to seed (seed 0: U1, U2, U3)
+    let rot = seed as usize % seqs.len();
+    seqs.rotate_left(rot);
+    let setting = format!("ONE process, no backtest has run in it before; every backtest mocks the SAME exchange id binance_spot (one ExecutionConfig::Mock, latency 0, fees {}) over the instrument universe of its batch: {}; account of a universe: {INIT_QUOTE} of the quote asset and {INIT_BASE} of every base asset of the universe (ample); market data PacedData (event i released when the engine has digested event i-1 and every execution answer it is owed) over the universe's own dataset ({}: item i = trade #i on instrument index [0,1,0,2,1,0,0,2,1][(i+variant)%9] % universe size, price 100+(7i+3*variant)%13; B = BinanceSpot stream reconnect notice); strategy EveryK(k): market order of {} on every k-th item, alternately buy / sell per instrument, for ANY instrument of its universe",
+        fee_rate(), (0..unis.len()).map(universe_name).collect::<Vec<_>>().join(", "), unis.iter().enumerate().map(|(u, x)| format!("{}: {} items, variant {}, {}", UNIVERSES[u].0, x.n, x.variant, seq_short(&x.exp))).collect::<Vec<_>>().join("; "), qty());
+    let mut history: Vec<String> = vec![];
+    let mut first: FirstSeen = HashMap::new();
+    let hist = |h: &[String]| if h.is_empty() { "nothing".to_string() } else if h.len() > 14 { format!("{} batches, the last ones: {}", h.len(), h[h.len() - 12..].join(" -> ")) } else { h.join(" -> ") };
+    let jobs_of = |u: usize, step: usize, ks: &[usize]| -> Vec<(String, usize)> { ks.iter().enumerate().map(|(j, k)| (format!("{}s{step}b{j}k{k}", UNIVERSES[u].0), *k)).collect() };
+    let mut step = 0usize;
+    // ---- 1. one after the other
+    'seqs: for (qi, seq) in seqs.iter().enumerate() {
+        for (pos, u) in seq.iter().enumerate() {
+            let (rt_name, rt, on_worker) = rts[(qi + pos) % rts.len()];
+            // a single `backtest`, then a `run_backtests` batch of the same universe
+            for (concurrent, ks) in [(false, vec![1 + (qi + pos) % 3]), (true, vec![1, 2, 3, 1 + (qi + pos) % 3])] {
+                let jobs = jobs_of(*u, step, &ks);
+                let what = format!("{} {}{:?} on {rt_name}", UNIVERSES[*u].0, if concurrent { "run_backtests k=" } else { "backtest k=" }, ks);
+                let b = run_batch(rt, on_worker, &unis[*u].fx, &unis[*u].evs, Feed::Paced, &jobs, concurrent);
+                st.n += 1;
+                let input = &|| format!("{setting}. Sequence #{qi} of the scenario: universes {:?} one after the other, this is position {pos}. Ran EARLIER in this process, in this order: {}. NOW: {what}, backtests (id, k) {jobs:?}", seq.iter().map(|x| UNIVERSES[*x].0).collect::<Vec<_>>(), hist(&history));
+                check_isolated(st, &mut first, *u, &unis[*u], &b, &format!("when run as batch #{step} of the process ({what})"), input);
+                history.push(what);
+                step += 1;
+            }
+            if started.elapsed() > budget { eprintln!("note: {L_EARLIER}: time budget used up after {step} batches"); break 'seqs; }
+        }
+    }
+    // ---- 2. side by side: one batch per universe, each driven from a thread of its own, on the SAME multi-thread runtime at the same time
+    let orders = permutations(&[0, 1, 2, 3]);
+    for round in 0..if thorough { 12 } else { 4 } {
+        if started.elapsed() > budget { break; }
+        let order = &orders[(round * 7 + rot) % orders.len()];
+        let on_worker = round % 2 == 0;
+        let plan: Vec<(usize, bool, Vec<(String, usize)>)> = order.iter().enumerate().map(|(j, u)| { let conc = (round + j) % 3 != 0; (*u, conc, jobs_of(*u, step + j, &if conc { vec![1, 2, 3] } else { vec![1 + (round + j) % 3] })) }).collect();
+        let batches: Vec<Batch> = std::thread::scope(|s| {
+            let hs: Vec<_> = plan.iter().map(|(u, conc, jobs)| { let un = &unis[*u]; s.spawn(move || run_batch(mt, on_worker, &un.fx, &un.evs, Feed::Paced, jobs, *conc)) }).collect();
+            hs.into_iter().map(|h| h.join().unwrap_or_else(|_| Batch { obs: vec![], stray: vec![], error: Some("panic in the thread driving the batch".into()) })).collect()
+        });
+        let what = format!("AT THE SAME TIME on multi-thread (4 workers){}: {}", if on_worker { "" } else { ", each batch polled on its own blocking thread" }, plan.iter().map(|(u, conc, jobs)| format!("{} {} {jobs:?}", UNIVERSES[*u].0, if *conc { "run_backtests" } else { "backtest" })).collect::<Vec<_>>().join(" | "));
+        for ((u, _, _), b) in plan.iter().zip(&batches) {
+            st.n += 1;
+            let input = &|| format!("{setting}. Ran EARLIER in this process, in this order: {}. NOW, {what}", hist(&history));
+            check_isolated(st, &mut first, *u, &unis[*u], b, &format!("when run side by side with the other universes (batch #{step} of the process)"), input);
+        }
+        history.push(format!("[{what}]"));
+        step += plan.len();
+    }
+    if std::env::var("VX_C20_DEBUG").is_ok() { eprintln!("{L_EARLIER}: {step} batches in {:?}", started.elapsed()); }
+}
+
 pub fn run(seed: u64, thorough: bool) -> u64 {
     let mut st = St { seen: HashSet::new(), n: 0, memo: HashMap::new(), relabel: None };
     let fx = fixture();
@@ -851,6 +1032,8 @@ pub fn run(seed: u64, thorough: bool) -> u64 {
     let hook = std::panic::take_hook();
     std::panic::set_hook(Box::new(|_| {}));
     let mut rng = Rng::seeded(seed, 20);
+    // FIRST (nothing has run in the process yet): backtests over different instrument universes on the same mocked exchange id
+    earlier_do_not_affect_later(&mut st, &mt, &ct, seed, thorough);
     let started = Instant::now();
     let budget = Duration::from_millis(if thorough { 48_000 } else { 2_500 });
     let sizes: &[usize] = if thorough { &[0, 1, 2, 3, 7, 12, 30, 64, 150] } else { &[0, 1, 2, 7, 30, 64] };
